@@ -95,6 +95,10 @@ type Scope struct {
 
 	// clockSrc stores the source of time. Defaults to system clock.
 	clockSrc digclock.Clock
+
+	// decoratorsStarted counts, on the root Scope, the decorators that were
+	// started in the whole container. See constructorNode.Call.
+	decoratorsStarted uint64
 }
 
 func newScope() *Scope {
